@@ -30,7 +30,7 @@ EXPLANATION = (
     "the cone (the domain of their logarithms) and a positive residual; (R8) the Newton start point of the 3-d power cone equals "
     "the generalised power cone's start point specialised to exponents (alpha, 1-alpha) as a rational function with identified "
     "radicands (finding F7, fixed: psi was hard-wired to its alpha = 1/2 value); (R9) the shared one-sided Newton iteration stops on "
-    "a relative step.")
+    "a relative step; (R10) degree() of every cone type is its barrier parameter (3, 3, dim1+1, 1, dim, n, 0).")
 ASSUMPTIONS = ['rustc MIR construction and trait resolution are correct',
                'R4: identities over the reals; log(a b) = log a + log b and omega + log omega = x for omega = wright_omega(x)']
 
@@ -443,6 +443,10 @@ def membership_guards(rep, F, tag, rid='C14.R7'):
                     n += 1
                     allpos = [k for k, v in val.items() if k.startswith('all(iter(index(arg2, RangeTo::RangeTo(dim1(self))))') and v == 1]
                     res = [k for k, v in val.items() if k.startswith('lt(zero(), sub(') and v == 1]
+                    wblock = any(k.replace('withoverflow', '').endswith(('sumsq(index(arg2, RangeFrom::RangeFrom(dim1(self))))))', ) ) for k in res)
+                    R.check(wblock, 'w-block|GenPowerCone::%s%s' % (nm, tag),
+                            'GenPowerCone::%s compares prod u_i^(2 a_i) with %s: the whole second block |w|^2 = sumsq(s[dim1..]) must be subtracted '
+                            '(with dim2 >= 2 a single component accepts points outside the cone)' % (nm, [k[-70:] for k in res]), f.loc())
                     R.check(len(allpos) == 1 and len(res) >= 1, 'guards|GenPowerCone::%s%s' % (nm, tag),
                             'GenPowerCone::%s returns true without testing that all of the first dim1 coordinates are positive / without a positive residual' % nm, f.loc())
             cl = [canon(g.sym_local(0)) for g in F.closures_of.get(f.key, [])]
@@ -545,6 +549,118 @@ def newton_relative_stop(rep, F, tag):
     R.guard(body)
 
 
+DEGREE = {'ExponentialCone': ('c', 3), 'PowerCone': ('c', 3), 'SecondOrderCone': ('c', 1), 'ZeroCone': ('c', 0),
+          'NonnegativeCone': ('s', 'self.dim'), 'PSDTriangleCone': ('s', 'self.n'), 'GenPowerCone': ('s', 'add(dim1(self), 1_usize)')}
+
+
+def barrier_parameters(rep, F, tag, rid='C14.R10'):
+    """degree() is the barrier parameter nu: it fixes mu = (<s,z> + tau kappa)/(nu + 1), so the unit start point is the central
+    point with mu = 1 only for the right nu (3 for the 3-d cones - the constant of the Euler identities R4 -, dim1 + 1 for the
+    generalised power cone, 1 / dim / n for the symmetric cones, 0 for the zero cone)."""
+    R = rep.rule(rid, 'degree() of every cone type is its barrier parameter')
+
+    def body():
+        n = 0
+        for f in F.find(name='degree', trait='Cone'):
+            K = last_seg(strip_generics(f.impl_adt or f.impl_self or '?'))
+            if K not in DEGREE:
+                continue
+            n += 1
+            leaves = [l for l in Walker(f).leaves() if l[1][0] != 'diverge']
+            got = [(l[1][0], l[1][1] if l[1][0] == 'c' else str(l[1][1]).replace('withoverflow', '').replace(').0', ')')) for l in leaves]
+            R.check(got == [DEGREE[K]], 'degree|%s%s' % (K, tag), '%s::degree returns %s, expected %s' % (K, got, DEGREE[K]), f.loc())
+        R.check(n >= 6, 'degree-count' + tag, 'only %d cone types analysed' % n)
+
+    R.guard(body)
+
+
+def _izip_operands(expr):
+    """operands, in order, of izip!(A, B, C) = map(zip(zip(A, B), C), closure()) / zip(A, B)"""
+    e = expr
+    if e.startswith('map(') and e.endswith(', closure())'):
+        e = split_args(e)[0]
+
+    def flat(x):
+        if x.startswith('zip('):
+            a = split_args(x)
+            if len(a) == 2:
+                return flat(a[0]) + [a[1]]
+        return [x]
+    return flat(e)
+
+
+def genpow_primal_gradient(rep, F, E, tag):
+    """Per-element form of the Euler identity for the generalised power cone: with g_r = (g1/|r|) r the first block must satisfy
+    g_i p_i + 1 + a_i + a_i g1 |r| = 0 (and g_i p_i + 1 + a_i = 0 when r = 0), so that <g, s> = -(dim1 + 1) because sum a_i = 1."""
+    R = rep.rule('C14.R4', 'Euler identities of the 3-d barriers: <grad, z> = -3, H z = -grad (dual side); <gradient_primal(s), s> = -3')
+
+    def body():
+        f = F.one(name='gradient_primal', adt='GenPowerCone')
+        pat = re.compile(r'^next\(into_iter\((.*)\)\)@Some\.0\.(\d)$')
+        holder = {}
+
+        def atoms(k, s_):
+            m = pat.match(k)
+            if m:
+                ops = _izip_operands(m.group(1))
+                i_ = int(m.group(2))
+                if i_ < len(ops):
+                    o = ops[i_]
+                    if 'self.α' in o:
+                        return ('S', P_atom('a'))
+                    if o.startswith('split_at(arg3') and o.endswith('.0'):
+                        return ('S', P_atom('p'))
+                    if 'split_at_mut(arg2' in o:
+                        return ('S', P_atom('gold'))
+                return None
+            if k.startswith('_newton_raphson_genpowcone('):
+                return ('S', P_atom('g1'))
+            if k.startswith('norm(split_at(arg3'):
+                return ('S', P_atom('nr'))
+            return None
+        n = 0
+        for val, ret, ev, tr in Walker(f, cut_loops=True).leaves():
+            if ret[0] != 'cut':
+                continue
+            nrpos = [v for k, v in val.items() if k.startswith('lt(epsilon(), norm(')]
+            I = LFSplit(F, E, f, atoms, {})
+            st = {}
+            tgt = None
+            for e in ev:
+                if e[0] == 'call':
+                    if str(e[2]).startswith('norm(split_at(arg3'):
+                        st[str(e[2])] = ('S', P_atom('nr'))
+                        nm_ = f.local_name(e[4].dest['l']) if not e[4].dest['p'] else None
+                        if nm_:
+                            st['var:' + nm_] = ('S', P_atom('nr'))
+                        continue
+                    I.apply_call(st, e[4])
+                elif e[0] == 'store':
+                    m = pat.match(str(e[1]))
+                    v = I.ev(st, f.sym_rvalue(e[4]['rv']))
+                    if m and 'split_at_mut(arg2' in _izip_operands(m.group(1))[int(m.group(2))]:
+                        tgt = v
+                elif e[0] == 'assign' and isinstance(e[4], dict):
+                    st['var:' + e[1]] = I.ev(st, f.sym_rvalue(e[4]['rv']))
+            if tgt is None:
+                continue
+            n += 1
+            ok = False
+            if tgt[0] == 'S' and len(nrpos) == 1:
+                one = RatF(P_const(1))
+                a_, p_ = RatF(P_atom('a')), RatF(P_atom('p'))
+                lhs = to_ratf(tgt[1], I.registry) * p_ + one + a_
+                if nrpos[0]:
+                    lhs = lhs + a_ * RatF(P_atom('g1')) * RatF(P_atom('nr'))
+                ok = lhs.is_zero()
+            R.check(ok, 'euler-primal|GenPowerCone|%s%s' % ('r>0' if (nrpos and nrpos[0]) else 'r=0', tag),
+                    'GenPowerCone::gradient_primal (%s branch) stores g_i = %s: g_i p_i + 1 + a_i%s must vanish identically, otherwise <g, s> is not '
+                    '-(dim1 + 1) and g is not the conjugate gradient' % ('|r| > eps' if (nrpos and nrpos[0]) else '|r| <= eps', P_fmt(tgt[1])[:120] if tgt[0] == 'S' else tgt[0], ' + a_i g1 |r|' if (nrpos and nrpos[0]) else ''), f.loc())
+        R.check(n == 2, 'euler-primal|GenPowerCone|paths' + tag, '%d element loops of GenPowerCone::gradient_primal analysed, expected both branches' % n, f.loc())
+
+    R.guard(body)
+
+
 def run(ctx, rep, tier):
     for cfg in (CONFIGS_THOROUGH if tier == 'thorough' else CONFIGS):
         F = ctx.facts(cfg)
@@ -554,10 +670,12 @@ def run(ctx, rep, tier):
         scaling_fallback(rep, F, tag)
         update_order(rep, F, E, tag)
         euler_identities(rep, F, E, tag)
+        genpow_primal_gradient(rep, F, E, tag)
         reflection_symmetry(rep, F, E, tag)
         membership_guards(rep, F, tag)
         newton_start_siblings(rep, F, E, tag)
         newton_relative_stop(rep, F, tag)
+        barrier_parameters(rep, F, tag)
         R6 = rep.rule('C14.R6', 'unit initialisation overwrites both vectors of every cone wholly (the documented start point is reached on every solve, not only the first)')
         from . import c05
         R6.guard(lambda: c05.unit_init_must_write(R6, F, tag))
